@@ -36,6 +36,19 @@ EXIT_OK, EXIT_VIOLATION, EXIT_INCONCLUSIVE = 0, 1, 2
 HARNESS_ERRORS = ('NameError(', 'AnchorMissing(', 'HarnessError(', 'UnboundLocalError(')
 
 
+def _harness_attribute_error(raised, module):
+    """An AttributeError about a stand-in object of the harness (a stub `self`, a fake file ...) or about an attribute the
+    harness looks up on a replicat module means the harness no longer fits the code - inconclusive, never a violation."""
+    m = re.match(r"AttributeError\([\"']'(\w+)' object has no attribute", raised)
+    if m:
+        try:
+            cls = getattr(importlib.import_module(module), m.group(1), None)
+        except Exception:
+            cls = None
+        return cls is not None and getattr(cls, '__module__', '').startswith('vt.')
+    return raised.startswith(("AttributeError(\"module 'replicat", "AttributeError('module \\'replicat"))
+
+
 # --------------------------------------------------------------------------- obligations
 @dataclasses.dataclass
 class Ob:
@@ -459,7 +472,7 @@ def run_property(prop: str, tier: str, obligations: List[Ob], explanation: str, 
                     rp = replay_call(v.cex['module'], v.cex['func'], v.cex['args'])
                     declared = harness_raises(ob.module, ob.func)
                     reproduced = rp.get('ok') is False and not any(d in (rp.get('raised') or '') for d in declared)
-                    if any((rp.get('raised') or '').startswith(x) for x in HARNESS_ERRORS):
+                    if any((rp.get('raised') or '').startswith(x) for x in HARNESS_ERRORS) or _harness_attribute_error(rp.get('raised') or '', ob.module):
                         reproduced = False
                 else:
                     rp = v.extra.get('replay', {'ok': None})
